@@ -186,6 +186,14 @@ def rule_peer_values(ctx):
         must_pass(ctx, R, fx, gx, xb, mult, eff, "X25519/X448 share length checked before the multiplication",
                   "an X25519/X448 share of the wrong length reaches the scalar multiplication",
                   cut={(x.id, "F") for x in xb})
+        # the meaning of whatever length test is there: refuse exactly the lengths that differ from the
+        # group's size (an empty or short share would index past its end, a long one be truncated)
+        lts = [t_ for t_ in gx.nodes if t_.kind == "test" and "len(peer_share)" in norm(t_.expr)
+               and "T" in dead_edge_labels(gx, t_, mult)]
+        for t_ in lts:
+            check_cond(ctx, R, fx, t_.ast, t_.expr, {"len(peer_share)": [0, 1, 31, 32, 33, 55, 56, 57], "size": [32, 56]},
+                       lambda e: e["len(peer_share)"] != e["size"], "X25519/X448 share length (meaning)",
+                       "an X25519/X448 share is refused exactly when its length differs from the group's", closed=True)
         for m in mult:
             var = None
             if m.kind == "stmt" and isinstance(m.ast, ast.Assign) and isinstance(m.ast.targets[0], ast.Name):
@@ -453,8 +461,88 @@ def rule_defaults(ctx):
         raise AnalysisError("%s: only %d EMSA-PSS calls found" % (R, n))
 
 
+def rule_pss_strict(ctx):
+    """PSS-STRICT: RSAKey.EMSA_PSS_verify accepts exactly the encodings RFC 8017 9.1.2 admits, decided by
+    interpreting its source (c01shared.run_method; hashes and MGF1 replaced by reference stand-ins;
+    nothing of the library runs) over sample encoded messages: a correct EM is accepted - with and
+    without salt, with emBits a multiple of 8 and not - and an EM in which ANY single octet differs
+    (trailer, H, every octet of the PS / 0x01 / salt area under the mask, the unused leading bits) is
+    refused with InvalidSignature.  A window that is one octet short, a separator test at the wrong
+    index or a comparison against the wrong hash shows as one accepted altered sample."""
+    import hashlib
+    from ..condeval import Unknown
+    from .c01shared import run_method
+    from .common import size_primitives
+    R = "C10.PSS-STRICT"
+    fi = ctx.index.func("utils.rsakey:RSAKey.EMSA_PSS_verify")
+
+    def mgf1(seed, length, h):
+        out, c = b"", 0
+        while len(out) < length:
+            out += hashlib.new(h, bytes(seed) + c.to_bytes(4, "big")).digest()
+            c += 1
+        return out[:length]
+
+    def encode(mhash, embits, h, salt):
+        hl = hashlib.new(h).digest_size
+        emlen = (embits + 7) // 8
+        H = hashlib.new(h, bytes(8) + mhash + salt).digest()
+        db = bytes(emlen - len(salt) - hl - 2) + b"\x01" + salt
+        mask = mgf1(H, emlen - hl - 1, h)
+        mdb = bytearray(a ^ b for a, b in zip(db, mask))
+        mdb[0] &= 0xff >> (8 * emlen - embits)
+        return bytes(mdb) + H + b"\xbc"
+
+    class _H(object):
+        _tlsverif_sample = True
+
+        def __init__(self, name):
+            self.digest_size = hashlib.new(name).digest_size
+    hooks = dict(size_primitives(ctx))
+    hooks.update({"MGF1": lambda base, seed, length, h: bytearray(mgf1(seed, length, h)),
+                  "secureHash": lambda d, h: bytearray(hashlib.new(h, bytes(d)).digest()),
+                  "divceil": lambda a, b: -(-a // b),
+                  "getattr": lambda o, nm, *d: (lambda: _H(nm))})
+    n = 0
+    for h, embits, slen in (("sha256", 1023, 32), ("sha256", 1024, 0), ("sha1", 1021, 20), ("sha384", 1023, 5)):
+        mhash = hashlib.new(h, b"message").digest()
+        salt = bytes(range(7, 7 + slen))
+        good = encode(mhash, embits, h, salt)
+        emlen = len(good)
+        samples = [("the correct encoding", good, True)]
+        for pos in range(emlen):
+            b_ = bytearray(good)
+            b_[pos] ^= 0x01
+            samples.append(("octet %d of %d altered (bit 0)" % (pos, emlen), bytes(b_), False))
+        if 8 * emlen != embits:
+            b_ = bytearray(good)
+            b_[0] ^= 0x80
+            samples.append(("an unused leading bit set", bytes(b_), False))
+        samples.append(("encoding for another message hash", encode(hashlib.new(h, b"other").digest(), embits, h, salt), False))
+        for label, em, want in samples:
+            try:
+                kind, val = run_method(ctx, fi, [bytearray(mhash), bytearray(em), embits, h, slen],
+                                       {"self": "SELF", "__exc__": ctx.an.exc, "hashlib": "HASHLIB"}, hooks)
+            except (Unknown, TypeError, AttributeError, KeyError, IndexError, ValueError) as e:
+                raise AnalysisError("%s: cannot interpret %s for `%s`: %s" % (R, fi.qname, label, e))
+            n += 1
+            if want:
+                ok = kind == "return" and val is True
+                exp = "must be accepted (return True)"
+            else:
+                ok = kind == "raise" and "InvalidSignature" in str(val)
+                exp = "must be refused with InvalidSignature"
+            ctx.check(R, ok, fi.qname, "%s emBits=%d sLen=%d: %s" % (h, embits, slen, label),
+                      "EMSA-PSS-VERIFY (%s, emBits %d, sLen %d) on %s %s; it %s (RFC 8017 9.1.2)" % (
+                          h, embits, slen, label, ("returns %r" % (val,)) if kind == "return" else "ends with %s %s" % (kind, val), exp),
+                      fi.loc(), what="EMSA_PSS_verify: " + label)
+    if n < 400:
+        raise AnalysisError("%s: only %d sample encodings evaluated" % (R, n))
+
+
 RULES = [
     ("C10.DEFAULTS", "quick", rule_defaults),
+    ("C10.PSS-STRICT", "quick", rule_pss_strict),
     ("C10.PSS-ONLY", "quick", rule_pss_only),
     ("C10.DER-REST", "quick", rule_der_rest),
     ("C10.NEG-VERSION", "quick", rule_negotiated_version),
